@@ -267,3 +267,22 @@ func TestSleepSets(t *testing.T) {
 		}
 	}
 }
+
+func TestDeadlinePropagation(t *testing.T) {
+	body := func() {
+		ctx, cancel := verifrt.WithTimeout(context.Background(), 5e9)
+		defer cancel()
+		type k struct{}
+		child, ccancel := verifrt.WithCancel(context.WithValue(ctx, k{}, 1)) // through a value context, as wrap does
+		defer ccancel()
+		verifrt.RecvDone(child) // nothing else can move: the virtual timer fires
+		verifrt.Logf("parent=%v child=%v", ctx.Err(), child.Err())
+	}
+	st := verifrt.Explore(verifrt.Config{Name: "deadline", Bound: -1, Sleep: true}, body, func(x *verifrt.ExecResult) verifrt.Verdict {
+		return verifrt.Verdict{Outcome: fmt.Sprint(x.Status, x.Log, x.Fired)}
+	})
+	want := "ok[parent=context deadline exceeded child=context deadline exceeded] 1"
+	if len(st.Outcomes) != 1 || st.Outcomes[want] == 0 {
+		t.Fatalf("outcomes %v", st.Outcomes)
+	}
+}
